@@ -23,8 +23,8 @@ from ..content import Pool, gen_content
 from ..main import Report
 
 CHUNK_LIMIT = 524288
-QUICK = {'A': 40, 'B': 24, 'C': 6}
-THOROUGH = {'A': 500, 'B': 300, 'C': 40}
+QUICK = {'A': 40, 'B': 24, 'C': 6, 'I': 110}
+THOROUGH = {'A': 500, 'B': 300, 'C': 40, 'I': 400}
 
 
 def fds_under(folder: str):
@@ -284,9 +284,32 @@ def case_C(idx: int, big_mib: int):
     return res
 
 
+def case_I(idx: int):
+    """imports between two containers: the batches held in memory stay within target_memory_bytes (observed calls vs
+    Dos.ImportCache.importCalls, and the budget oracle on the observed batches)"""
+    res = {'kind': 'I', 'idx': idx, 'failures': [], 'breaks': [], 'stats': {}, 'sample': None}
+    r = store_check.run_case('C18', 'import', idx)
+    if r.error:
+        res['breaks'].append({'where': 'harness exception', 'model': '', 'real': r.error[:500], 'theorem_or_correspondence': 'harness', 'case': {'idx': idx}})
+    for f in r.failures:
+        if f[1] == 'C18':
+            res['failures'].append({'signature': f[2], 'text': f[3], 'replay': {'kind': 'I', 'idx': idx, 'seed': common.seed()}})
+            break
+    for d in r.diffs:
+        if d[1] == 'calls':
+            res['breaks'].append({'where': f'direct-to-pack calls of import (step {d[0]})', 'model': str(d[2])[:300], 'real': str(d[3])[:300],
+                                  'theorem_or_correspondence': 'Dos.ImportCache.importCalls (importCalls_bounded) vs the calls import_objects makes',
+                                  'case': {'idx': idx}})
+            break
+    res['stats'] = {'import_calls_compared': r.stats.get('import_calls_compared', 0)}
+    return res
+
+
 def _work(job):
     kind, idx, arg = job
     try:
+        if kind == 'I':
+            return case_I(idx)
         if kind == 'A':
             return case_A(idx)
         if kind == 'B':
@@ -300,7 +323,8 @@ def run(tier: str) -> Report:
     rep = Report('C18')
     plan = QUICK if tier == 'quick' else THOROUGH
     big = 12 if tier == 'quick' else 40
-    jobs = [('C', i, big) for i in range(plan['C'])] + [('A', i, 0) for i in range(plan['A'])] + [('B', i, 0) for i in range(plan['B'])]
+    jobs = ([('C', i, big) for i in range(plan['C'])] + [('A', i, 0) for i in range(plan['A'])] + [('B', i, 0) for i in range(plan['B'])]
+            + [('I', i, 0) for i in range(plan['I'])])
     ctx = mp.get_context('fork')
     with ctx.Pool(processes=min(12, os.cpu_count() or 4)) as pool:
         results = pool.map(_work, jobs, chunksize=1)
@@ -331,7 +355,7 @@ def replay(path: str) -> int:
     os.environ['VERIF_SEED'] = str(rp.get('seed', 0))
     common.build_lean()
     kind = rp.get('kind')
-    r = case_A(rp['idx']) if kind == 'A' else case_B(rp['idx']) if kind == 'B' else case_C(rp['idx'], 12) if kind == 'C' else None
+    r = case_A(rp['idx']) if kind == 'A' else case_B(rp['idx']) if kind == 'B' else case_C(rp['idx'], 12) if kind == 'C' else case_I(rp['idx']) if kind == 'I' else None
     if r is None:
         print('nothing to replay')
         return 2
